@@ -141,6 +141,9 @@ func lastCasePath() string {
 	if wd == "" {
 		return ""
 	}
+	if os.Getenv("VERIF_FUZZ") != "" {
+		return filepath.Join(wd, fmt.Sprintf("lastcase.pid%d.json", os.Getpid()))
+	}
 	return filepath.Join(wd, fmt.Sprintf("lastcase.%d.json", EnvShard()))
 }
 
